@@ -558,7 +558,7 @@ func newSSAStyleFromString(content string, format map[int]string) (s *ssaStyle, 
 		// Bool
 		case ssaStyleFormatNameBold, ssaStyleFormatNameItalic, ssaStyleFormatNameStrikeout,
 			ssaStyleFormatNameUnderline:
-			var b = item == "-1"
+			var b = item == "-1" || item == "1"
 			switch attr {
 			case ssaStyleFormatNameBold:
 				s.bold = astikit.BoolPtr(b)
